@@ -1013,10 +1013,11 @@ def pe_ops(reloc_to=True, writes=True):
     return st.one_of(*ops)
 
 
-def pe_history(max_ops=14, reloc_to=True, writes=True):
+def pe_history(max_ops=14, reloc_to=True, writes=True, align_choices=None):
     """[init?] + ops.  JSON-serialisable (tuples become lists on replay)."""
     from hypothesis import strategies as st
-    init = st.tuples(st.just("init"), st.integers(0, 1), st.integers(0, len(ALIGNS) - 1),
+    aligns = st.sampled_from(align_choices) if align_choices else st.integers(0, len(ALIGNS) - 1)
+    init = st.tuples(st.just("init"), st.integers(0, 1), aligns,
                      st.integers(0, len(LFANEWS) - 1), st.integers(0, 5))
     return st.tuples(init, st.lists(pe_ops(reloc_to, writes), min_size=1, max_size=max_ops)).map(
         lambda t: [list(t[0])] + [_listify(o) for o in t[1]])
